@@ -6,6 +6,7 @@ import (
 	"go/constant"
 	"go/token"
 	"go/types"
+	"golang.org/x/tools/go/ssa"
 	"sort"
 	"strings"
 )
@@ -204,6 +205,17 @@ func analyseLexer(w *World, arms bool) *lexerModel {
 					}
 					return true
 				})
+				// on the value graph: the offsets (relative to a cursor field) at which the method reads the input.
+				// peek reads at offset 0 of the read position; a look-behind only at negative offsets (however the
+				// index is computed: input[readPosition-2], or prev := readPosition - 2; if prev < 0 {...}; input[prev])
+				if offs, known := inputReadOffsets(w, f); known {
+					isPrev = true
+					for _, o := range offs {
+						if o >= 0 {
+							isPrev = false
+						}
+					}
+				}
 				if !isPrev {
 					m.peekChar = f
 				}
@@ -912,4 +924,80 @@ func c06LexerLiterals(r *Run) {
 			r.Bad("R6", infix.Name(), "Operator field", w.Pos(infix.Decl.Pos()), "the infix node's Operator must be the current token's literal")
 		}
 	}
+}
+
+// inputReadOffsets: the constant offsets, relative to a field of the receiver, of the indexes at which the
+// method f reads a string (the input); known is false when some index is not field+constant.
+func inputReadOffsets(w *World, f *FuncInfo) (offs []int64, known bool) {
+	fn := w.SSAFunc(f)
+	if fn == nil {
+		return nil, false
+	}
+	var offsetsOf func(v ssa.Value, depth int) ([]int64, bool)
+	offsetsOf = func(v ssa.Value, depth int) ([]int64, bool) {
+		if depth > 6 {
+			return nil, false
+		}
+		switch x := v.(type) {
+		case *ssa.UnOp:
+			if x.Op == token.MUL {
+				if _, isFA := x.X.(*ssa.FieldAddr); isFA {
+					return []int64{0}, true
+				}
+			}
+		case *ssa.BinOp:
+			c, isC := x.Y.(*ssa.Const)
+			if !isC || c.Value == nil || c.Value.Kind() != constant.Int || (x.Op != token.ADD && x.Op != token.SUB) {
+				return nil, false
+			}
+			k, _ := constant.Int64Val(c.Value)
+			if x.Op == token.SUB {
+				k = -k
+			}
+			in, ok := offsetsOf(x.X, depth+1)
+			if !ok {
+				return nil, false
+			}
+			var out []int64
+			for _, o := range in {
+				out = append(out, o+k)
+			}
+			return out, true
+		case *ssa.Phi:
+			var out []int64
+			for _, e := range x.Edges {
+				in, ok := offsetsOf(e, depth+1)
+				if !ok {
+					return nil, false
+				}
+				out = append(out, in...)
+			}
+			return out, true
+		}
+		return nil, false
+	}
+	n := 0
+	for _, b := range fn.Blocks {
+		for _, ins := range b.Instrs {
+			var idx ssa.Value
+			switch x := ins.(type) {
+			case *ssa.Lookup:
+				if bt, isB := x.X.Type().Underlying().(*types.Basic); isB && bt.Info()&types.IsString != 0 {
+					idx = x.Index
+				}
+			case *ssa.Index:
+				idx = x.Index
+			}
+			if idx == nil {
+				continue
+			}
+			n++
+			o, ok := offsetsOf(idx, 0)
+			if !ok {
+				return nil, false
+			}
+			offs = append(offs, o...)
+		}
+	}
+	return offs, n > 0
 }
